@@ -49,7 +49,7 @@ func ruleA1(c *Ctx) {
 	for _, b := range f.Blocks {
 		if iff := lastIf(b); iff != nil {
 			if call, ok := iff.Cond.(*ssa.Call); ok {
-				if g := m.callee(call.Common()); g != nil && g.Name() == "isExternal" {
+				if g := m.callee(call.Common()); g != nil && g == m.method(pkgAdapt, "plugin", "isExternal") {
 					extIf = iff
 				}
 			}
